@@ -124,7 +124,11 @@ func resolveCatalogRefs(c *catalog.Catalog, rvs []*ast.RangeVar, args []paramRef
 					alias = items[0]
 					key = items[1]
 				default:
-					panic("too many field items: " + strconv.Itoa(len(items)))
+					return nil, &sqlerr.Error{
+						Code:     "0A000",
+						Message:  "unsupported column reference with " + strconv.Itoa(len(items)) + " parts next to a parameter",
+						Location: left.Location,
+					}
 				}
 
 				search := tables
